@@ -5,6 +5,7 @@ use egverif::targets::*;
 use egverif::texts::*;
 use embedded_graphics::pixelcolor::Rgb565;
 use embedded_graphics::prelude::*;
+use embedded_graphics::primitives::Rectangle;
 use embedded_graphics::text::renderer::TextRenderer;
 
 type C = Rgb565;
@@ -58,7 +59,7 @@ fn check(t: &TextCase, obs: &mut Obs) {
 
     // the constructors are different entry points to the same settings
     {
-        use embedded_graphics::text::{Text, TextStyleBuilder};
+        use embedded_graphics::text::{Text, TextStyle, TextStyleBuilder};
         let cs = t.style::<C>();
         let full = t.build::<C>();
         if t.align == 0 && t.lh == (1, 100) {
@@ -76,6 +77,37 @@ fn check(t: &TextCase, obs: &mut Obs) {
             if t.align == 0 && Text::new(&t.text, pos, cs) != full {
                 obs.fail("constructors-agree", "Text::new differs from the explicit default text style".to_string());
             }
+            if TextStyle::with_alignment(align(t.align)) != full.text_style {
+                obs.fail("constructors-agree", format!("TextStyle::with_alignment gives {:?}, builder {:?}", TextStyle::with_alignment(align(t.align)), full.text_style));
+            }
+        }
+        if t.align == 0 && t.lh == (1, 100) && TextStyle::with_baseline(baseline(t.baseline)) != full.text_style {
+            obs.fail("constructors-agree", format!("TextStyle::with_baseline gives {:?}, builder {:?}", TextStyle::with_baseline(baseline(t.baseline)), full.text_style));
+        }
+        // a builder started from an existing style keeps every setting that is not overridden
+        let ts = full.text_style;
+        let copy = TextStyleBuilder::from(&ts).build();
+        let re_aligned = TextStyleBuilder::from(&TextStyleBuilder::from(&ts).alignment(align((t.align + 1) % 3)).build()).alignment(align(t.align)).build();
+        let re_based = TextStyleBuilder::from(&TextStyleBuilder::from(&ts).baseline(baseline((t.baseline + 1) % 4)).build()).baseline(baseline(t.baseline)).build();
+        if copy != ts || re_aligned != ts || re_based != ts {
+            obs.fail("constructors-agree", format!("TextStyleBuilder::from(&style): style {:?}, copy {:?}, alignment changed and restored {:?}, baseline changed and restored {:?}", ts, copy, re_aligned, re_based));
+        }
+    }
+
+    // the returned position does not depend on the size of the target: a target whose bounding box ends a few pixels
+    // right of / below the position (so that most characters start beyond it) returns the same position and
+    // receives the same pixels inside its box
+    {
+        let bb = Rectangle::new(pos - Point::new(5, 5), Size::new(14, 20));
+        let mut small = RecD::<C>::with_box(bb);
+        let o2 = t.build::<C>().draw(&mut small).unwrap();
+        obs.class_if(map.keys().any(|k| k.0 > pos.x + 14), "characters-beyond-a-small-target");
+        if o2 != result {
+            obs.fail("returned-position-independent-of-target", format!("target box {:?}: draw returned {:?}; on a huge target {:?}", rt(&bb), o2, result));
+        }
+        let inside = |m: &Map<C>| -> Map<C> { m.iter().filter(|(k, _)| bb.contains(Point::new(k.0, k.1))).map(|(k, v)| (*k, *v)).collect() };
+        if inside(&small.map) != inside(&map) {
+            obs.fail("pixels-inside-a-small-target-unchanged", format!("target box {:?}: {}", rt(&bb), map_diff(&inside(&small.map), &inside(&map))));
         }
     }
 
@@ -125,6 +157,14 @@ fn check(t: &TextCase, obs: &mut Obs) {
         if t.align == 0 {
             let style = t.style::<C>();
             let ms = style.measure_string(line, Point::new(lc.pos.0, lc.pos.1), baseline(t.baseline));
+            // the renderer called directly is the same entry point for a single left-aligned line
+            if !line.ends_with('\r') {
+                let mut direct = RecD::<C>::new();
+                let n = style.draw_string(line, Point::new(lc.pos.0, lc.pos.1), baseline(t.baseline), &mut direct).unwrap();
+                if direct.map != m || n != r {
+                    obs.fail("Text-equals-draw_string-for-a-left-aligned-line", format!("line {:?}: draw_string returned {:?}, Text::draw {:?}; {}", line, n, r, map_diff(&direct.map, &m)));
+                }
+            }
             if r != ms.next_position {
                 obs.fail("draw-returns-measure_string-next-position", format!("line {:?}: draw returned {:?}, measure_string predicts {:?}", line, r, ms.next_position));
             }
@@ -208,11 +248,11 @@ fn main() {
     egverif::fw::main(Prop {
         id: "C15",
         level: "exploration",
-        rule: "every text case of the listed product once; non-trivial = something is painted; per case: CR LF version == LF version (map and returned position), the whole text == its lines drawn separately line_height apart (in draw order) and returns what the last line returns, every line's painted box starts at / ends at / is centred within half a pixel on the x position and starts at y minus the baseline offset (Top 0, Bottom h-1, Middle (h-1)/2, Alphabetic font.baseline), left-aligned draw returns measure_string's next_position, and for single-line strings every split s1+s2 chained through the returned position equals the whole string",
+        rule: "every text case of the listed product once; non-trivial = something is painted; per case: CR LF version == LF version (map and returned position), the whole text == its lines drawn separately line_height apart (in draw order) and returns what the last line returns, every line's painted box starts at / ends at / is centred within half a pixel on the x position and starts at y minus the baseline offset (Top 0, Bottom h-1, Middle (h-1)/2, Alphabetic font.baseline), left-aligned draw returns measure_string's next_position, drawing into a target whose box ends 8 px right of the position returns the same position and paints the same pixels inside that box, every Text/TextStyle/TextStyleBuilder constructor (including TextStyleBuilder::from(&style)) gives the same settings, and for single-line strings every split s1+s2 chained through the returned position equals the whole string",
         assumptions: &["all built-in fonts have character spacing 0 (the chaining clause is restricted to such fonts by the statement)", "Middle is the centre row of the character box rounded down, like Rectangle::center"],
         parts: |_| vec![PartSpec::new("all", "verif")],
         run_part,
-        required_classes: |_| vec!["left", "center", "right", "baseline-top", "baseline-bottom", "baseline-middle", "baseline-alphabetic", "crlf", "empty-line", "line-height-pixels", "line-height-percent", "middle-baseline-even-height", "line-longer-than-7-bytes", "chained"],
+        required_classes: |_| vec!["left", "center", "right", "baseline-top", "baseline-bottom", "baseline-middle", "baseline-alphabetic", "crlf", "empty-line", "line-height-pixels", "line-height-percent", "middle-baseline-even-height", "line-longer-than-7-bytes", "chained", "characters-beyond-a-small-target"],
         crash_is_verdict: false,
     })
 }
